@@ -224,6 +224,50 @@ def concrete_playback(package, h, env_extra, timeout_s, log_dir):
         lockf.close()
 
 
+def _enclosing_mod_end(body, harness_name):
+    """index of the closing brace of the `mod k {` block that contains `fn <harness_name>(` (strings, chars and comments skipped)"""
+    m = re.search(r"\bfn\s+%s\s*\(" % re.escape(harness_name), body)
+    if not m:
+        return body.rindex("}")
+    starts = [x.end() - 1 for x in re.finditer(r"\bmod\s+k\s*\{", body) if x.start() < m.start()]
+    if not starts:
+        return body.rindex("}")
+    i = starts[-1]
+    depth = 0
+    j = i
+    n = len(body)
+    while j < n:
+        c = body[j]
+        nxt = body[j + 1] if j + 1 < n else ""
+        if c == "/" and nxt == "/":
+            j = body.find("\n", j)
+            if j < 0:
+                break
+            continue
+        if c == "/" and nxt == "*":
+            j = body.find("*/", j) + 2
+            continue
+        if c == '"':
+            j += 1
+            while j < n and body[j] != '"':
+                j += 2 if body[j] == "\\" else 1
+            j += 1
+            continue
+        if c == "'":
+            mm = re.match(r"'(\\.|[^\\'])'", body[j:j + 4])
+            if mm:
+                j += len(mm.group(0))
+                continue
+        if c == "{":
+            depth += 1
+        elif c == "}":
+            depth -= 1
+            if depth == 0:
+                return j
+        j += 1
+    return body.rindex("}")
+
+
 def run_playback(package, h, rpath, env_extra, log_dir):
     """Compile the harness + generated test natively and run it: must panic (= reproduce)."""
     tests = _playback_tests(open(rpath).read() + "\n")
@@ -236,8 +280,8 @@ def run_playback(package, h, rpath, env_extra, log_dir):
     shutil.copytree(KANI_DIR, scratch)
     hf = os.path.join(scratch, os.path.basename(h["file"]))
     body = open(hf).read()
-    # the harness lives in `mod k { ... }`; append the test inside that module
-    idx = body.rindex("}")
+    # the harness lives in a `mod k { ... }`; append the test inside THAT module (other items may follow it in the file)
+    idx = _enclosing_mod_end(body, h["name"])
     body = body[:idx] + "\n" + test_src + "\n}\n" + body[idx + 1:]
     open(hf, "w").write(body)
     env = dict(os.environ)
